@@ -55,6 +55,7 @@ var checks = map[string][]HarnessSpec{
 	"C09": {
 		{Name: "verifC09KeySets", Pkg: ".", Labels: []string{"ran", "accepted", "passthrough"}},
 		{Name: "verifC09Retry", Pkg: ".", Labels: []string{"retried"}},
+		{Name: "verifC09ManyKeys", Pkg: ".", Labels: []string{"many-keys"}},
 	},
 	"C10": {
 		{Name: "verifC10AfterReturn", NoisyNative: true, Pkg: ".", Labels: []string{"after-return"}},
